@@ -144,6 +144,7 @@ def run(ctx):
                     "dup_attrs": 0.1 if k % 4 == 2 else 0.0, "implicit_consts": 0.5, "const_blocks": 0.25}
             if k % 3 == 1:
                 opts["const_forms"] = ("data1", "data2", "data4", "data8")
+            opts["typed_enum_consts"] = 0.8      # constants of enumerations that have an underlying type
             if k % 2 == 1:
                 opts["cv_variants"] = 0.6        # volatile / restrict / packed in the type chains of constants
             if k % 3 == 0:
